@@ -37,8 +37,8 @@ def callStr (alleles : List Nat) (phased : Bool) : Option Str :=
   | [a, b], false => some (natDigits a ++ 47 :: natDigits b)
   | _, _ => none
 
-/-- `_convert_to_json(None)`: `tdict` converts its keys and values WITHOUT the `None` check of `_convert_to_json_na`, so this
-is what a missing dict key / value becomes.  The base class is the identity (`None` → `null`), `tcall` is `str(None)`, a struct
+/-- `_convert_to_json(None)`: no caller passes `None` any more (before commit 1824f18d5 `tdict` did, for missing keys and
+values — see `dictEntryToJsonOld`); this is what the converters do with it.  The base class is the identity (`None` → `null`), `tcall` is `str(None)`, a struct
 or tuple type without fields never touches the value; every other class raises `TypeError` / `AttributeError`. -/
 def toJsonNone : HType → Option Json
   | .int32 | .int64 | .bool | .str | .void | .rngState => some .null
@@ -60,8 +60,15 @@ def naOr (x : Value) (conv : Value → Option Json) : Option Json :=
   | .na => some .null
   | _ => conv x
 
-/-- `{'key': key_type._convert_to_json(k), 'value': value_type._convert_to_json(v)}` — NOT the `_na` variants -/
+/-- `{'key': key_type._convert_to_json_na(k), 'value': value_type._convert_to_json_na(v)}` (since /repo commit 1824f18d5) -/
 def dictEntryToJson (convK convV : Value → Option Json) (p : Value × Value) : Option Json :=
+  match naOr p.1 convK, naOr p.2 convV with
+  | some jk, some jv => some (.obj [(cp% "key", jk), (cp% "value", jv)])
+  | _, _ => none
+
+/-- the entry conversion BEFORE commit 1824f18d5 (repaired defect, kept for the record): `_convert_to_json` without the `None`
+check, so a missing key / value reached the type's converter (`toJson t .na = toJsonNone t`) -/
+def dictEntryToJsonOld (convK convV : Value → Option Json) (p : Value × Value) : Option Json :=
   match convK p.1, convV p.2 with
   | some jk, some jv => some (.obj [(cp% "key", jk), (cp% "value", jv)])
   | _, _ => none
@@ -85,7 +92,7 @@ def rawToJsonList : List Value → Option (List Json)
 end
 
 mutual
-/-- `t._convert_to_json(x)` (`x` may be `None` only when called from `tdict`) -/
+/-- `t._convert_to_json(x)` -/
 def toJson : HType → Value → Option Json
   | t, .na => toJsonNone t
   | .int32, .int i | .int64, .int i => some (.num i)
@@ -273,20 +280,20 @@ def fromJsonNa (t : HType) (j : Json) : Option Value := nullOr j (fromJson t)
 
 /-! ## what the conversion supports -/
 
-/-- the classes whose `_convert_to_json` is the identity, so that a `None` dict key / value survives -/
+/-- the classes whose `_convert_to_json` is the identity, so that even the old `tdict` code let a `None` survive -/
 def primNone : HType → Bool
   | .int32 | .int64 | .bool | .str => true
   | _ => false
 
 mutual
-/-- no dict holds a missing key or value of a type outside `primNone`, and every n-d array has a numeric element type -/
+/-- every n-d array has a numeric element type (the only restriction left after commit 1824f18d5) -/
 def JsonOK : HType → Value → Prop
   | _, .na => True
   | .interval t, .interval s e _ _ => JsonOK t s ∧ JsonOK t e
   | .array t, .arr xs => ∀ x ∈ xs, JsonOK t x
   | .set t, .set xs => ∀ x ∈ xs, JsonOK t x
   | .dict k v, .dict es =>
-    ∀ p ∈ es, JsonOK k p.1 ∧ JsonOK v p.2 ∧ (p.1 = .na → primNone k = true) ∧ (p.2 = .na → primNone v = true)
+    ∀ p ∈ es, JsonOK k p.1 ∧ JsonOK v p.2
   | .struct fs, .struct xs => JsonOKFields fs xs
   | .tuple ts, .tup xs => JsonOKTuple ts xs
   | .ndarray t _, .nd _ _ _ => isNumeric t = true
